@@ -59,7 +59,9 @@ def probe_guarded(seconds=20.0):
     th.start()
     th.join(seconds)
     if box:
-        return box[0]
+        # the re-entrant parse returns: the fact itself is established in the CALLING thread (a parse may behave
+        # differently when it is the only thread of the process)
+        return probe()
     # the helper thread stays stuck inside the patched Lexer.token; the patch only acts on that thread
     return {"private": False, "outer_objs": 0, "inner_objs": 0, "engine_lexer_untouched": False, "blocked": True}
 
